@@ -1,0 +1,29 @@
+//  SPDX-License-Identifier: BSL-1.0
+//  Distributed under the Boost Software License, Version 1.0. (See accompanying
+//  file LICENSE_1_0.txt or copy at http://www.boost.org/LICENSE_1_0.txt)
+
+// Verification hook points. With PIKA_VERIF undefined (the default) the macro
+// expands to nothing. With PIKA_VERIF defined a harness can install a function
+// that is called at the marked sites (to perturb schedules or record steps).
+
+#pragma once
+
+#if defined(PIKA_VERIF)
+# include <pika/config/export_definitions.hpp>
+
+# include <cstdint>
+
+namespace pika::verif {
+    using hook_fn = void (*)(
+        char const* site, void const* obj, std::uint64_t a, std::uint64_t b) noexcept;
+    // installs a new hook (nullptr disables), returns the previous one
+    PIKA_EXPORT hook_fn exchange_hook(hook_fn f) noexcept;
+    PIKA_EXPORT void point(
+        char const* site, void const* obj, std::uint64_t a, std::uint64_t b) noexcept;
+}    // namespace pika::verif
+
+# define PIKA_VERIF_POINT(site, obj, a, b)                                                        \
+  ::pika::verif::point(site, obj, static_cast<std::uint64_t>(a), static_cast<std::uint64_t>(b))
+#else
+# define PIKA_VERIF_POINT(site, obj, a, b) ((void) 0)
+#endif
